@@ -426,12 +426,23 @@ func ruleRoleIndexTable(c *Ctx) {
 				default:
 					return false
 				}
-				for _, f := range fields {
-					if isLoadOf(m, f) {
-						return true
+				// the map may be chosen first and indexed once (trees := r.followers; if leader { trees = r.leaders })
+				alts := valueAlternatives(m, 3)
+				if len(alts) == 0 {
+					return false
+				}
+				for _, a := range alts {
+					okA := false
+					for _, f := range fields {
+						if isLoadOf(a, f) {
+							okA = true
+						}
+					}
+					if !okA {
+						return false
 					}
 				}
-				return false
+				return true
 			}
 			key := getter + " " + fnName(fn)
 			if _, seen := loopOK[key]; !seen {
